@@ -160,6 +160,31 @@ def gen_loop_exec(r, xid, tp):
     return lines
 
 
+def gen_sendonly_exec(r, xid, tp):
+    """Byte stream, one direction only: the connecting side sends (under real back-pressure: small kernel buffers and a
+    receiver that does not read yet), lets the socket finish, closes gracefully and never calls xcm_receive; only then
+    does the accepting side read.  What it obtains before the end of the stream must be everything that was accepted."""
+    lines = ["X %d %s" % (xid, tp)]
+    # every send is meant to be accepted in full (a byte-stream send cut short by back-pressure leaves a TLS record
+    # half written, which only another send could complete: the harness does not call that "flushed")
+    if r.random() < 0.4:
+        lines.append("Z %d" % r.choice([8192, 16384]))
+        sizes, nrecv = [r.choice([500, 1000, 2000]) for _ in range(r.randint(1, 3))], 12
+    else:
+        # default buffers: up to a megabyte still queued in the kernel when the sender closes
+        sizes, nrecv = [65535] * r.randint(4, 16), 40
+    for ln in sizes:
+        lines.append("s 1 %d -1 0 1" % ln)
+        if r.random() < 0.2:
+            lines.append("f 1 -1 0")
+    lines.append("f 1 -1 0")
+    lines.append("c 1 0")
+    for _ in range(nrecv):
+        lines.append("r 2 70000 -1 0 -1 0")
+    lines.append("p")
+    return lines
+
+
 def gen_raw_exec(r, xid, tp):
     """Hostile peer: endpoint 2 is a raw TCP socket.  It writes well-formed frames, then possibly one malformed
     frame (illegal length), a truncated frame or garbage, in arbitrary pieces, and possibly dies."""
